@@ -102,8 +102,9 @@ Proof.
   all: t_some_rb s; t_negok s T I'; t_Dn s; t_Dd s.
   all: try discriminate; try lia.
   (* told ok: the primary is committed *)
-  apply orb_true_iff in C1. destruct C1 as [C1 | C1]; [apply orb_true_iff in C1; destruct C1 as [C1 | C1] |]; b2p.
+  match goal with Hx : negb (cn _ FPcOk =? 0) || _ || _ = true |- _ => rename Hx into CR end.
+    apply orb_true_iff in CR. destruct CR as [CR | CR]; [apply orb_true_iff in CR; destruct CR as [CR | CR] |]; b2p.
   - eexists. apply t_pcok. auto.
-  - exfalso. destruct Hc as [_ [B _]]. unf2. apply g_1pcts in C1. congruence.
-  - exfalso. unfold async_kept in C1. b2p. destruct Hc as [A _]. unf2. congruence.
+  - exfalso. destruct Hc as [_ [B _]]. unf2. apply g_1pcts in CR. congruence.
+  - exfalso. unfold async_kept in CR. b2p. destruct Hc as [A _]. unf2. congruence.
 Qed.
